@@ -554,6 +554,50 @@ func init() {
 		}
 		return nil
 	})
+	// hash/maphash: deterministic FNV-1a over the concrete bytes written
+	// (the real one is seeded per process; only equality of digests is observable)
+	mhBuf := func(fr *frame, h value) *[]byte {
+		p := h.(*value)
+		if fr.ex.mapHashes == nil {
+			fr.ex.mapHashes = map[*value]*[]byte{}
+		}
+		b, ok := fr.ex.mapHashes[p]
+		if !ok {
+			b = &[]byte{}
+			fr.ex.mapHashes[p] = b
+		}
+		return b
+	}
+	reg("(*hash/maphash.Hash).Reset", func(fr *frame, a []value) value { *mhBuf(fr, a[0]) = nil; return nil })
+	reg("(*hash/maphash.Hash).WriteString", func(fr *frame, a []value) value {
+		s := strArg(fr, a[1])
+		b := mhBuf(fr, a[0])
+		*b = append(*b, s...)
+		return tuple{len(s), iface{}}
+	})
+	reg("(*hash/maphash.Hash).Write", func(fr *frame, a []value) value {
+		s := strArg(fr, bytesAsText(fr.ex, a[1].([]value)))
+		b := mhBuf(fr, a[0])
+		*b = append(*b, s...)
+		return tuple{len(s), iface{}}
+	})
+	reg("(*hash/maphash.Hash).WriteByte", func(fr *frame, a []value) value {
+		c, ok := a[1].(byte)
+		if !ok {
+			fr.ex.unsupported("symbolic byte written to maphash")
+		}
+		b := mhBuf(fr, a[0])
+		*b = append(*b, c)
+		return iface{}
+	})
+	reg("(*hash/maphash.Hash).Sum64", func(fr *frame, a []value) value {
+		h := uint64(14695981039346656037)
+		for _, c := range *mhBuf(fr, a[0]) {
+			h ^= uint64(c)
+			h *= 1099511628211
+		}
+		return h
+	})
 	reg("(*sync.Map).Load", func(fr *frame, a []value) value {
 		fr.ex.preemptPoint()
 		m := fr.ex.syncMap(a[0].(*value))
